@@ -169,10 +169,21 @@ class Types:
                     self._bind(f, env, n.target, self.elem_of(self.expr(f, n.iter, env)))
         return env
 
+    def _comp_env(self, f, e, env):
+        """env extended with the comprehension's own targets (bound from its iterables, left to right)."""
+        env2 = dict(env)
+        for gen in e.generators:
+            self._bind(f, env2, gen.target, self.elem_of(self.expr(f, gen.iter, env2)))
+        return env2
+
     def _bind(self, f, env, target, t: T):
         if isinstance(target, ast.Name):
             if t.kind != "unknown" or target.id not in env:
                 if target.id in env and env[target.id].kind != "unknown" and t.kind == "unknown":
+                    return
+                old = env.get(target.id)
+                # a rebinding whose element type could not be inferred does not erase a known one of the same container kind
+                if old is not None and old.kind == t.kind and t.kind in ("list", "set", "iter") and (t.elem is None or t.elem.kind == "unknown") and old.elem is not None and old.elem.kind != "unknown":
                     return
                 env[target.id] = t
         elif isinstance(target, (ast.Tuple, ast.List)):
@@ -258,10 +269,14 @@ class Types:
             if isinstance(e, ast.List) and e.elts:
                 el = self.expr(f, e.elts[0], env)
             if isinstance(e, ast.ListComp):
-                el = self.expr(f, e.elt, env)
+                el = self.expr(f, e.elt, self._comp_env(f, e, env))
             return T("list", elem=el)
         if isinstance(e, (ast.Set, ast.SetComp)):
+            if isinstance(e, ast.SetComp):
+                return T("set", elem=self.expr(f, e.elt, self._comp_env(f, e, env)))
             return T("set", elem=self.expr(f, e.elts[0], env) if isinstance(e, ast.Set) and e.elts else UNKNOWN)
+        if isinstance(e, ast.GeneratorExp):
+            return T("iter", elem=self.expr(f, e.elt, self._comp_env(f, e, env)))
         if isinstance(e, ast.Tuple):
             return T("tuple", items=tuple(self.expr(f, x, env) for x in e.elts))
         if isinstance(e, ast.Dict):
